@@ -31,16 +31,22 @@ def frame_from_parts(parts_keys, divisions=None, cols=None, index_name=None):
 
 
 class _Getter:
-    """picklable/tokenizable partition getter"""
+    """picklable/tokenizable partition getter. The token is a process-wide serial number, NOT id(self): ids are reused
+    after garbage collection, and dask keeps module-level caches keyed by expression names (divisions_lru,
+    mem_usages_lru): a recycled id made a later frame inherit the cached divisions / presorted flag of an earlier one
+    (seen as a flaky 'not globally ordered' in the C40 history stream)."""
+
+    _serial = __import__("itertools").count()
 
     def __init__(self, parts):
         self.parts = parts
+        self.serial = next(_Getter._serial)
 
     def __call__(self, i):
         return self.parts[i].copy()
 
     def __dask_tokenize__(self):
-        return ("_dfpart_getter", id(self))
+        return ("_dfpart_getter", self.serial)
 
 
 def partitions(d):
